@@ -221,8 +221,16 @@ def run_hybrid(c):
         elif op == "size":
             ghe.compute_g_functions() if hasattr(ghe, "compute_g_functions") else None
             ghe.size(method=TimestepType.HYBRID)
-    return {"ok": True, "load": [float(x) for x in ghe.hybrid_load.load], "hour": [float(x) for x in ghe.hybrid_load.hour],
-            "hourly": ghe._verif_loads, "times_end": float(ghe.times[-1]) if len(getattr(ghe, "times", [])) else None}
+    out = {"ok": True, "load": [float(x) for x in ghe.hybrid_load.load], "hour": [float(x) for x in ghe.hybrid_load.hour],
+           "hourly": ghe._verif_loads, "times_end": float(ghe.times[-1]) if len(getattr(ghe, "times", [])) else None}
+    if c.get("csv_rows"):
+        # the rows of TimeDependentValues.csv as the real row builder makes them for this object (time and Q columns only)
+        from types import SimpleNamespace
+        from ghedesigner.output import OutputManager
+        om = object.__new__(OutputManager)
+        rows = om.get_loading_data(SimpleNamespace(ghe=ghe))[1:]
+        out["csv_tq"] = [[float(r_[0]), float(r_[2])] for r_ in rows]
+    return out
 
 
 def run_pair(c):
